@@ -139,3 +139,11 @@ chk("C18", "exploration", "ThreadSanitizer stress with injected scheduling delay
     "The evidence states thread-operations, overlapping same-key operation pairs (proof of actual concurrency) and injected yields; "
     "a repeat with too few overlaps makes the run inconclusive.",
     "Schedules are sampled. Races inside uninstrumented libraries are invisible. Helgrind not used (cost, noise).", "DESIGN.md 3/C18")
+chk("C20", "exploration", "black-box monitoring of the ASan-built tools (exit status, stdout) + OpenSSL-direct key comparison helper",
+    "~1e3 (quick) / ~3e3 (thorough) tool invocations: jwt-verify over token lists of length 1..1024 with 0..n failing tokens at "
+    "random positions, as arguments and on stdin, tokens up to 64 KiB; jwt-generate -> jwt-verify for every key type with every "
+    "documented spelling of the options (cross-checked against each tool's --help); key2jwk -> library import -> jwk2key -> "
+    "component-wise comparison for fresh keys of every type, EC keys generated until leading-zero coordinates and scalars "
+    "occurred (counted in the evidence); RFC 7518 member encodings checked by Python.",
+    "Trusted: OpenSSL key accessors in drivers/d_c20.c; --print pipelines and Windows paths not exercised; blank lines/CRLF on "
+    "stdin unjudged.", "DESIGN.md 3/C20")
